@@ -413,9 +413,20 @@ StreamErrors(b) == StreamErrorsOf(b, ParseStream(b))
 (* a sample count different from it.  (Frame numbering, frame-size extrema, the blocking    *)
 (* flag and a partition order that does not divide the block are NOT in this set: RFC 9639  *)
 (* decoders, the reference one included, do not check them.)                                *)
-MustRejectErrorsOf(b, st) ==
+\* With a known total T a decoder may stop as soon as it has delivered T samples: when some prefix of the frames holds exactly T
+\* samples, whatever follows it (further frames, damaged or not) is beyond the stream and need not be looked at.
+FramesWithinTotal(st) ==
     LET fs == st.frames
         n == Len(fs)
+        si == st.si
+        known == si.totalHi # 0 \/ si.totalLo # 0
+        RECURSIVE Cum(_)
+        Cum(i) == IF i = 0 THEN 0 ELSE Cum(i - 1) + fs[i].bs
+        K == {i \in 0..n : Cum(i) = TotalOf(si)}
+    IN IF known /\ K # {} THEN CHOOSE i \in K : \A j \in K : i <= j ELSE n
+MustRejectErrorsOf(b, st) ==
+    LET n == FramesWithinTotal(st)
+        fs == SubSeq(st.frames, 1, n)
         si == st.si
         frameErrs == UNION {{<<i, e>> : e \in fs[i].errs \ Lenient} : i \in 1..n}
         total == FoldLeft(LAMBDA a, f : a + f.bs, 0, fs)
@@ -430,5 +441,5 @@ MustRejectErrorsOf(b, st) ==
                      THEN {"frame header disagrees with STREAMINFO"} ELSE {})
                \cup (IF known /\ TotalOf(si) # total THEN {"STREAMINFO total samples"} ELSE {})
              ELSE {})
-       \cup (IF frameErrs = {} /\ n = 0 /\ known THEN {"STREAMINFO total samples"} ELSE {})
+       \cup (IF frameErrs = {} /\ n = 0 /\ known /\ Len(st.frames) = 0 THEN {"STREAMINFO total samples"} ELSE {})
 =======================================================================
